@@ -64,6 +64,11 @@ def cases(tier):
         for mk in ("corner-to-corner", "dense", "sparse"):
             for method in ("newton", "bregman"):
                 out.append({"kind": "end-to-end", "shape": list(s), "mass": mk, "method": method})
+    # the iterative back-ends on systems large enough for a multilevel preconditioner (144 / 150
+    # cells), with the tolerances spelled with an explicit zero (absolute-only / relative-only stopping)
+    for s in [(12, 12), (6, 5, 5)]:
+        for form in (("pressure", "cg"), ("pressure", "amg"), ("flux_reduced", "amg"), ("flux_reduced", "cg")):
+            out.append({"kind": "tolerance-spelling", "shape": list(s), "form": list(form)})
     out.sort(key=lambda c: (c["kind"] != "systems", int(np.prod(c["shape"]))))
     return out
 
@@ -316,13 +321,17 @@ def run_end_to_end(case, r):
     dim = len(shape)
     vs = Wh.voxel_sizes(dim, "aniso")
     m1, m2 = Wh.mass_pairs(shape, mk)
-    for l1, mob in itertools.product(Wh.L1_MODES, Wh.MOBILITY_MODES):
+    variants = [(l1, mob, None) for l1, mob in itertools.product(Wh.L1_MODES, Wh.MOBILITY_MODES)]
+    if method == "bregman":
+        # a penalty parameter other than the one of the initial Darcy solve (L_init = 1)
+        variants += [("RAVIART_THOMAS", "CELL_BASED", 4.0), ("RAVIART_THOMAS", "FACE_BASED", 0.25)]
+    for l1, mob, L in variants:
         res = {}
         for form in FORMS:
-            o = c04.opts_for(method, l1, mob, form, 0, 6)
+            o = c04.opts_for(method, l1, mob, form, 0, 6, None if L is None else {"L": L})
             out = Wh.run_solver(method, shape, vs, m1, m2, o)
             if out.exc is not None:
-                r.fail(f"C08/end-to-end/usable/{form[0]}-{form[1]}", "every formulation / back-end completes a distance computation", exception=repr(out.exc)[:300], cfg=(shape, mk, method, l1, mob))
+                r.fail(f"C08/end-to-end/usable/{form[0]}-{form[1]}", "every formulation / back-end completes a distance computation", exception=repr(out.exc)[:300], cfg=(shape, mk, method, l1, mob, L))
                 continue
             res[form] = out
         if ("full", "direct") not in res:
@@ -334,12 +343,52 @@ def run_end_to_end(case, r):
                 continue
             tol = 1e-5 if form[1] in ("amg", "cg") else 1e-8
             cond = "ill-conditioned" if ill else "well-conditioned"
-            r.check(abs(out.distance - d0) <= tol * max(1.0, abs(d0)), f"C08/end-to-end/{method}/{form[0]}-{form[1]}/{cond}", "the choice of formulation or back-end changes no computed distance beyond tolerance", d=out.distance, d_full=d0, cfg=(shape, mk, method, l1, mob), weight_ratio=max(o.weight_ratio for o in res.values()))
-        r.nontriv((shape, mk, method, l1, mob))
+            r.check(abs(out.distance - d0) <= tol * max(1.0, abs(d0)), f"C08/end-to-end/{method}/{form[0]}-{form[1]}/{cond}", "the choice of formulation or back-end changes no computed distance beyond tolerance", d=out.distance, d_full=d0, cfg=(shape, mk, method, l1, mob, L), weight_ratio=max(o.weight_ratio for o in res.values()))
+        r.nontriv((shape, mk, method, l1, mob, L))
         r.count("transitions", len(res))
         r.count("traces", len(res))
     r.outcome(case)
 
 
+def run_tolerance_spelling(case, r):
+    import darsia.measure.wasserstein as W
+
+    shape, form = tuple(case["shape"]), tuple(case["form"])
+    dim = len(shape)
+    vs = Wh.voxel_sizes(dim, "aniso")
+    spellings = {
+        "cg": [("rtol=0,atol=1e-11", {"rtol": 0, "atol": 1e-11, "maxiter": 500}), ("rtol=0.0,atol=1e-11", {"rtol": 0.0, "atol": 1e-11, "maxiter": 500}), ("rtol=1e-12,atol=0", {"rtol": 1e-12, "atol": 0, "maxiter": 500})],
+        "amg": [("atol=1e-11", {"atol": 1e-11, "maxiter": 500}), ("atol=1e-11,rtol=0", {"atol": 1e-11, "rtol": 0, "maxiter": 500})],
+    }[form[1]]
+    direct, grid = solver(shape, vs, ("full", "direct"))
+    ref = Wh.Ref(grid)
+    nf, nc = ref.nf, ref.nc
+    pinned = int(direct.constrained_cell_flat_index)
+    w = weights(nf, 0, True)
+    M = assemble(direct, w)
+    basis = [b for _, b in rhs_basis(nf, nc, pinned)]
+    rhs = sum((1.0 + (k % 5)) * b for k, b in enumerate(basis))
+    x0, _ = direct.linear_solve(M.copy(), rhs.copy(), np.zeros_like(rhs))
+    x0 = np.asarray(x0, dtype=float)
+    sc = float(np.max(np.abs(x0)))
+    for name, lso in spellings:
+        grid2 = Wh.make_grid(shape, vs)
+        obj = W.WassersteinDistanceNewton(grid2, None, {"formulation": form[0], "linear_solver": form[1], "linear_solver_options": dict(lso)})
+        cell = f"C08/large-systems/{form[0]}-{form[1]}"
+        try:
+            x, _ = obj.linear_solve(M.copy(), rhs.copy(), np.zeros_like(rhs))
+        except Exception as e:  # noqa: BLE001
+            r.fail(cell, "an explicit zero among the tolerances of an iterative back-end is accepted", options=name, exception=repr(e)[:300])
+            continue
+        err = float(np.max(np.abs(np.asarray(x, dtype=float) - x0))) / sc
+        r.check(err <= 1e-8, cell, "with a tolerance of 1e-11 / 1e-12 requested (the other one explicitly zero) the iterative solution agrees with the direct one to 1e-8", options=name, err_rel=err, shape=shape)
+        r.nontriv((shape, form, name))
+    r.count("transitions", len(spellings) + 1)
+    r.count("traces", len(spellings) + 1)
+    r.outcome(case)
+
+
 def run_case(case, r):
+    if case["kind"] == "tolerance-spelling":
+        return run_tolerance_spelling(case, r)
     {"systems": run_systems, "history": run_history, "end-to-end": run_end_to_end}[case["kind"]](case, r)
